@@ -430,6 +430,10 @@ func (s *Sim) genVal(refP float64) Val {
 
 func (s *Sim) genOutcome(r *Req, draining bool) string {
 	p := s.Cfg.P
+	if s.calm {
+		// (restart check of C20.e: the services answer properly)
+		return s.defaultOutcome(r)
+	}
 	if g := outcomeGens[s.Cfg.Profile]; g != nil {
 		if o := g(s, r, draining); o != "" {
 			return o
